@@ -76,8 +76,11 @@ func ruleFieldBij(r *Run) {
 	xmlOwners := map[string]bool{"PageSizeXML": true, "PageMargin": true, "DocGrid": true}
 	psOwner := map[string]bool{"PageSettings": true}
 	sl := newSlicer(p)
+	dsl := newSlicer(p)
+	dsl.dataOnly = true
 	type info struct {
-		reads map[string]bool
+		reads map[string]bool // fields in the slice incl. control dependence
+		data  map[string]bool // fields whose value flows into the result (Get side only)
 		res   *sliceRes
 		pos   ssa.Instruction
 	}
@@ -121,10 +124,15 @@ func ruleFieldBij(r *Run) {
 		res := sl.SliceWithControl(st.Val, st)
 		k := "PageSettings." + fv.Name()
 		if getM[k] == nil {
-			getM[k] = &info{reads: map[string]bool{}, res: res, pos: st}
+			getM[k] = &info{reads: map[string]bool{}, data: map[string]bool{}, res: res, pos: st}
 		}
 		for f := range res.fieldsReadOf(p, xmlOwners) {
 			getM[k].reads[f] = true
+		}
+		// data-only slice: XML fields whose VALUE flows into the setting (as opposed to fields that
+		// only select between values, like w:orient selecting whether w and h are exchanged)
+		for f := range dsl.Slice(st.Val).fieldsReadOf(p, xmlOwners) {
+			getM[k].data[f] = true
 		}
 	})
 	r.Min("page_settings_fields_read_back", len(getM), 11)
@@ -132,7 +140,7 @@ func ruleFieldBij(r *Run) {
 	// (1) what Get reads to produce P must have been written by Set from P
 	for _, pk := range keysOfInfo(getM) {
 		gi := getM[pk]
-		for _, x := range keysOf(gi.reads) {
+		for _, x := range keysOf(gi.data) {
 			si := setM[x]
 			ok := si != nil && si.reads[pk]
 			detail := fmt.Sprintf("GetPageSettings computes %s from %s; SetPageSettings must write %s from %s", pk, x, x, pk)
